@@ -603,6 +603,17 @@ def r8(idx, rep):
                 bad = bad or f"{cls.lower()}({v!r}) votes {got!r}, documented {want}"
         rep.analysed(fi)
         rep.check(bad is None, "R8", f"{fi.file}::{cls} table", bad or "", K.where(fi, fi.node))
+    # empty(#a, #b, …): true iff every argument is empty (one Equality child holding the comma list)
+    bad = None
+    for vals in (("", None), ("", "x"), ("x", ""), ("x", "y"), ("", "  ", None), ("", "", "z")):
+        items = [C(f"s{i}", value=v, kind="Header") for i, v in enumerate(vals)]
+        fi, ps = FM.run_function(idx, "Empty", "_decide_match", [C("eq", items=items, kind="Equality")], siblings=items,
+                                 inline={"Empty._do_one", "Empty._do_many", "Empty._do_headers"})
+        got = FM.final(ps[0], "self.match")
+        want = all(v is None or str(v).strip() == "" for v in vals)
+        if len(ps) != 1 or got is not want:
+            bad = bad or f"empty{vals!r} votes {got!r}, documented {want} (every argument empty)"
+    rep.check(bad is None, "R8", f"{fi.file}::Empty table several arguments", bad or "", K.where(fi, fi.node))
     # string functions (value tables)
     str_tables = [
         ("Lower", "_produce_value", lambda C: [C("c0", value="AbC")], "abc"),
